@@ -28,7 +28,9 @@ func init() {
 	// names that differ in letter case only, and names whose byte order and case-folded order differ
 	c19NamePool = append(c19NamePool, "Work", "work", "WORK", "Zeta", "zeta", "Alpha", "home", "Home", "Default", "DEFAULT", "default", "@Default",
 		// blanks at the edges are part of a name
-		"w ", " w", "w", "nb\u00a0", "tab\t", "\u3000wide")
+		"w ", " w", "w", "nb\u00a0", "tab\t", "\u3000wide",
+		// characters a serialiser has to escape and a reader has to take back: controls, DEL, private-use and non-characters
+		"del\x7f", "bell\a", "v\vt", "\x01soh", "esc\x1b[0m", "pua\U000F0000", "max\U0010FFFF", "bs\b", "ff\f", "cr\rx", "\u2028ls", "\ufeffbom", "\ufffdrepl", "<&>", "u\u0085nel", "\u200bzw")
 }
 
 // c19RandomName draws an arbitrary valid-UTF-8 name (1-8 characters) that does not start with '-' and does not contain " -> " or a newline.
